@@ -192,6 +192,58 @@ pub fn run_c07(tier: Tier) -> i32 {
     wss.push(("c08".into(), c08_workspace().0));
     let mut accepted = 0u64;
     let mut kinds_accepted: BTreeSet<String> = BTreeSet::new();
+    // generated scoping programs: shadowing is the norm there, so a rename that captures or
+    // misses an occurrence changes the binding graph
+    {
+        let gen = crate::props::scoping::generated_workspaces(tier, tier == Tier::Quick);
+        let res: Vec<(u64, u64, Vec<Violation>, Vec<String>)> = gen
+            .par_iter()
+            .map(|(name, ws)| {
+                let files = ws.files();
+                let host = ws.host();
+                let an = host.snapshot();
+                let mut viol = vec![];
+                let (mut n, mut acc) = (0u64, 0u64);
+                let mut kinds = vec![];
+                for (fi, f) in files.iter().enumerate().filter(|(_, f)| f.is_module) {
+                    for (off, _, old) in occurrences(&f.text) {
+                        let valid = if old.chars().next().map_or(false, |c| c.is_uppercase()) { FRESH_UPPER } else { FRESH_LOWER };
+                        n += 1;
+                        if let Ok(Ok(edits)) = rename_edits(&an, f.id, off, valid) {
+                            acc += 1;
+                            let kk = kind_key(&f.text, off);
+                            kinds.push(kk.clone());
+                            match catch(|| c07_check(ws, &files, &an, fi, off, &old, valid, &edits)) {
+                                Ok(fails) => {
+                                    for (class, detail) in fails {
+                                        if viol.len() < 4 {
+                                            viol.push(Violation { class: class.clone(), key: format!("{kk}|generated"), witness: json!({"workspace_json": ws.to_json(), "file": f.rel, "offset": off, "new_name": valid}), detail: format!("[{name}] {detail}\n      {}", files[0].text.trim()) });
+                                        }
+                                    }
+                                }
+                                Err(m) => viol.push(Violation { class: "panic".into(), key: panic_class(&m), witness: json!({"workspace_json": ws.to_json(), "file": f.rel, "offset": off, "new_name": valid}), detail: format!("[{name}] rename check panicked: {m}") }),
+                            }
+                        }
+                    }
+                }
+                (n, acc, viol, kinds)
+            })
+            .collect();
+        let mut l = Layer { name: "generated-scoping-programs".into(), states: gen.len() as u64, exhaustive: true, ..Default::default() };
+        let mut acc_here = 0;
+        for (n, a, v, k) in res {
+            l.executions += n;
+            l.transitions += n + a * 4;
+            acc_here += a;
+            kinds_accepted.extend(k);
+            for x in v {
+                rep.violation(x);
+            }
+        }
+        accepted += acc_here;
+        l.bound = format!("{} generated two-module programs (module contexts x single-statement scoping skeletons x every assignment of {{x, y}} to the slots) x every identifier occurrence; {acc_here} renames accepted and fully checked", gen.len());
+        rep.layer(l);
+    }
     for (name, ws) in &wss {
         let files = ws.files();
         let jobs: Vec<(usize, u32, String)> = files.iter().enumerate().filter(|(_, f)| f.is_module).flat_map(|(fi, f)| occurrences(&f.text).into_iter().map(move |(s, _, t)| (fi, s, t))).collect();
@@ -266,6 +318,20 @@ fn find_ws<'a>(wss: &'a [(String, Workspace)], name: &str) -> Option<&'a Workspa
 }
 
 pub fn replay_c07(w: &Value) -> Vec<String> {
+    if let Some(ws) = Workspace::from_json(&w["workspace_json"]) {
+        let files = ws.files();
+        let Some(fi) = files.iter().position(|f| Some(f.rel.as_str()) == w["file"].as_str()) else { return vec!["unknown file".into()] };
+        let off = w["offset"].as_u64().unwrap_or(0) as u32;
+        let new = w["new_name"].as_str().unwrap_or(FRESH_LOWER);
+        let host = ws.host();
+        let an = host.snapshot();
+        let old = occurrences(&files[fi].text).into_iter().find(|o| o.0 == off).map(|o| o.2).unwrap_or_default();
+        return match rename_edits(&an, files[fi].id, off, new) {
+            Ok(Ok(e)) => c07_check(&ws, &files, &an, fi, off, &old, new, &e).into_iter().map(|(c, d)| format!("{c}: {d}")).collect(),
+            Ok(Err(_)) => vec![],
+            Err(m) => vec![format!("panic: {m}")],
+        };
+    }
     let mut wss = base_workspaces();
     wss.push(("c08".into(), c08_workspace().0));
     let Some(ws) = find_ws(&wss, w["workspace"].as_str().unwrap_or("")) else { return vec!["unknown workspace".into()] };
